@@ -1,45 +1,81 @@
 /* C06 (P7 / PAM header loop): trusted abstract model of the text line the loop works on and of the stream.
- * A line is only its LENGTH (contents abstract); the stream is the ghost g_rem = bytes still to be delivered.
- * phosg::fgets(FILE*) (verified by C14) returns the next line including its terminator, or an EMPTY string at end of file. */
+ * The stream is the ghost g_rem = bytes still to be delivered.  A line is its LENGTH plus an abstract CONTENT:
+ *   kind     which header command the line is (after removal of trailing white space): WIDTH / HEIGHT / DEPTH / MAXVAL / TUPLTYPE with
+ *            their argument, ENDHDR, or none of these (K_OTHER);
+ *   okval    the argument is acceptable: a numeral std::stoull converts (numeric commands), one of the four tuple types (TUPLTYPE);
+ *   val      the numeral's value / the tuple type;
+ *   stripped trailing white space (the line terminator) has been removed.
+ * phosg::fgets(FILE*) (verified by C14) returns the next line including its terminator, or an EMPTY string at end of file.
+ * What the header SAYS is recorded in ghosts by the fgets model as the lines are delivered: g_hw, g_hh, g_hmax (last WIDTH / HEIGHT /
+ * MAXVAL), g_htup (last TUPLTYPE, 0 = none), g_hdepth/g_hdepth_seen (last DEPTH), g_hwell (every line delivered so far is a
+ * well-formed header line), g_hend (ENDHDR was delivered), g_hfirst (the character after the signature). */
 #ifndef C06_P7_H
 #define C06_P7_H
 #include "contracts/verif.h"
-typedef struct { size_t len; } cline;
+typedef struct { size_t len; uint8_t kind, okval, stripped; uint64_t val; } cline;
 typedef struct { int dummy; } C6FILE;
+enum { K_OTHER = 0, K_WIDTH = 1, K_HEIGHT = 2, K_DEPTH = 3, K_MAXVAL = 4, K_TUPLTYPE = 5, K_ENDHDR = 6, K_TAIL = 7, K_UNKNOWN_LIT = 99 };
+enum { T_GRAYSCALE = 10, T_GRAYSCALE_ALPHA = 11, T_RGB = 12, T_RGB_ALPHA = 13, T_OTHER = 14 };
+#define K_PREFIX_LEN(k) ((k) == K_WIDTH ? 6 : (k) == K_HEIGHT ? 7 : (k) == K_DEPTH ? 6 : (k) == K_MAXVAL ? 7 : (k) == K_TUPLTYPE ? 9 : 0)
 extern size_t g_rem;
 extern int verif_exc;
+extern uint64_t g_hw, g_hh, g_hmax, g_hdepth;
+extern uint8_t g_htup, g_hdepth_seen, g_hwell, g_hend;
+extern int g_hfirst;
+size_t nondet_c6_size(void); uint8_t nondet_c6_u8(void); uint64_t nondet_c6_u64(void);
 
-void c6_fgets(cline* line, C6FILE* f)
-__CPROVER_requires(verif_exc == 0)
-__CPROVER_ensures(__CPROVER_old(g_rem) == 0 ? (line->len == 0 && g_rem == 0)
-                                            : (line->len >= 1 && line->len <= __CPROVER_old(g_rem) && g_rem == __CPROVER_old(g_rem) - line->len))
-__CPROVER_assigns(line->len, g_rem);
+/* (a model with a body, inlined into the caller: the ghost updates are part of what it does) */
+static inline void c6_fgets(cline* line, C6FILE* f)
+{
+  if (g_rem == 0) { line->len = 0; line->kind = K_OTHER; line->okval = 0; line->stripped = 1; line->val = 0; g_hwell = 0; return; }
+  size_t verif_n = nondet_c6_size(); uint8_t verif_k = nondet_c6_u8(), verif_ok = nondet_c6_u8(); uint64_t verif_v = nondet_c6_u64();
+  __CPROVER_assume(verif_n >= 1 && verif_n <= g_rem && verif_k <= K_ENDHDR && verif_ok <= 1);
+  __CPROVER_assume(verif_n >= (verif_k == K_ENDHDR ? 6 : K_PREFIX_LEN(verif_k) + verif_ok));
+  if (verif_k == K_TUPLTYPE) { __CPROVER_assume(verif_v >= T_GRAYSCALE && verif_v <= T_OTHER); verif_ok = (verif_v != T_OTHER); }
+  g_rem -= verif_n;
+  line->len = verif_n; line->kind = verif_k; line->okval = verif_ok; line->val = verif_v; line->stripped = 0;
+  if (verif_k == K_OTHER || (verif_k != K_ENDHDR && !verif_ok)) g_hwell = 0;
+  if (verif_ok) {
+    if (verif_k == K_WIDTH) g_hw = verif_v;
+    if (verif_k == K_HEIGHT) g_hh = verif_v;
+    if (verif_k == K_MAXVAL) g_hmax = verif_v;
+    if (verif_k == K_DEPTH) { g_hdepth = verif_v; g_hdepth_seen = 1; }
+    if (verif_k == K_TUPLTYPE) g_htup = (uint8_t)verif_v;
+  }
+  if (verif_k == K_ENDHDR) g_hend = 1;
+}
 
 int c6_fgetc(C6FILE* f)
 __CPROVER_requires(verif_exc == 0)
 __CPROVER_ensures(__CPROVER_old(g_rem) == 0 ? (__CPROVER_return_value == -1 && g_rem == 0)
                                             : (__CPROVER_return_value >= 0 && __CPROVER_return_value <= 255 && g_rem == __CPROVER_old(g_rem) - 1))
-__CPROVER_assigns(g_rem);
+__CPROVER_ensures(g_hfirst == __CPROVER_return_value)
+__CPROVER_assigns(g_rem, g_hfirst);
 
 void c6_strip_trailing_whitespace(cline* line)
-__CPROVER_ensures(line->len <= __CPROVER_old(line->len))
-__CPROVER_assigns(line->len);
+__CPROVER_ensures(line->len <= __CPROVER_old(line->len) && line->stripped == 1)
+__CPROVER_assigns(line->len, line->stripped);
 
-/* starts_with(line, "<n characters>") / line == "<n characters>": can only hold for a line that is long enough */
-_Bool c6_starts_with(const cline* line, size_t n)
+/* starts_with(line, "<n characters>") / line == "<n characters>": can only hold for a line that is long enough; for the literals that
+ * are header commands (lit, named by the extraction rule from the literal's text) the answer is the line's kind */
+_Bool c6_starts_with(const cline* line, size_t n, int lit)
 __CPROVER_ensures(__CPROVER_return_value ==> line->len >= n)
+__CPROVER_ensures(lit != K_UNKNOWN_LIT ==> __CPROVER_return_value == (line->kind == lit))
 __CPROVER_assigns();
-_Bool c6_equals(const cline* line, size_t n)
+_Bool c6_equals(const cline* line, size_t n, int lit)
 __CPROVER_ensures(__CPROVER_return_value ==> line->len == n)
+__CPROVER_ensures(lit == K_ENDHDR ==> __CPROVER_return_value == (line->kind == K_ENDHDR && line->stripped))
+__CPROVER_ensures((lit >= T_GRAYSCALE && lit <= T_RGB_ALPHA) ==> __CPROVER_return_value == (line->kind == K_TAIL && line->stripped && line->val == (uint64_t)lit))
 __CPROVER_assigns();
 void c6_substr(cline* out, const cline* line, size_t pos)
 __CPROVER_requires(pos <= line->len)                 /* std::string::substr throws out_of_range otherwise */
-__CPROVER_ensures(out->len == line->len - pos)
-__CPROVER_assigns(out->len);
-/* std::stoull: some value, or invalid_argument / out_of_range (an exception is an acceptable rejection) */
+__CPROVER_ensures(out->len == line->len - pos && out->kind == K_TAIL && out->stripped == line->stripped)
+__CPROVER_ensures((K_PREFIX_LEN(line->kind) != 0 && pos == K_PREFIX_LEN(line->kind)) ==> (out->val == line->val && out->okval == line->okval))
+__CPROVER_assigns(__CPROVER_object_whole(out));
+/* std::stoull: the numeral's value, or invalid_argument / out_of_range when there is no acceptable numeral */
 unsigned long long c6_stoull(const cline* s)
 __CPROVER_requires(verif_exc == 0)
-__CPROVER_ensures(verif_exc == 0 || verif_exc == EXC_invalid_argument || verif_exc == EXC_out_of_range)
+__CPROVER_ensures((s->kind == K_TAIL && s->okval) ? (verif_exc == 0 && __CPROVER_return_value == s->val) : (verif_exc == EXC_invalid_argument || verif_exc == EXC_out_of_range))
 __CPROVER_assigns(verif_exc);
 char c6_at(const cline* line, size_t i)
 __CPROVER_requires(i < line->len)                    /* operator[] beyond the end is undefined */
